@@ -16,10 +16,17 @@ WML_TAIL = b"</p>\n</card>\n</wml>\n"
 
 def wml_inverse(body: bytes) -> typing.Optional[typing.List[str]]:
     """Undo the documented text -> WML conversion: lines, html-unescaped; an empty
-    line was written as a paragraph break."""
-    if not (body.startswith(WML_HEAD) and body.endswith(WML_TAIL)):
+    line was written as a paragraph break.  The frame is located structurally (a card
+    whose first paragraph holds the text), not by its exact bytes."""
+    import re
+    c = body.find(b"<card")
+    if c < 0:
         return None
-    inner = body[len(WML_HEAD):len(body) - len(WML_TAIL)]
+    ps = body.find(b"<p>\n", c)
+    m = re.search(rb"</p>\s*</card>\s*</wml>\s*$", body)
+    if ps < 0 or not m or m.start() < ps + 4:
+        return None
+    inner = body[ps + 4:m.start()]
     inner = inner.replace(b"</p>\n<p>", b"\n")
     if inner == b"":
         return []
